@@ -26,6 +26,8 @@ func init() {
 			{ID: "C11.R8", Floor: 1, Run: c11r8, Text: "deferred events read the old table after the batch: no function on the retire path (free-list push, deactivate, reset) writes the table's identity fields (RelationTarget, RelationComponent, HasRelationComponent, Mask), so OldTarget/OldRelation of batch events stay truthful after the old table was retired"},
 			{ID: "C11.R9", Floor: 4, Run: batchParallelAppends, Text: "every recorded batch range keeps its own old table (= C03.R8): OldTarget / OldRelation of batch events are read from it"},
 			{ID: "C11.R10", Floor: 2, Run: constPrefilters, Text: "constant subscription pre-filters: only the two target setters (table in checker/rules_r3.go) test Subscriptions() against a constant mask before notifying, and the mask is event.TargetChanged; every other notification leaves filtering to subscribes() with the per-event types"},
+			{ID: "C11.R11", Floor: 7, Run: c04r1, Text: "mask operations are word-uniform (= C04.R1): Added/Removed of an event are computed with Xor/And"},
+			{ID: "C11.R12", Floor: 9, Run: c04r2, Text: "mask operations have their set semantics (= C04.R2)"},
 			{ID: "C11.R7", Floor: 1, Run: c12r5, Text: "freshness of notification inputs in loops (= C12.R5)"},
 		},
 	})
